@@ -760,6 +760,10 @@ func corpusScenarios() []scenario {
 			{Name: "c", Version: "1.0-r0", Archs: both(), Deps: []string{"d<3"}}, {Name: "d", Version: "1.0-r0", Archs: both()}, {Name: "d", Version: "2.0-r0", Archs: both()},
 			{Name: "d", Version: "3.0-r0", Archs: both()}, {Name: "e", Version: "1.0-r0", Archs: both(), Deps: []string{"so:libd.so.1"}},
 			{Name: "libd", Version: "1.2-r0", Archs: both(), Provides: []string{"so:libd.so.1=1"}}}},
+		// C09-F6: c's conflict entry !b is applied after b was chosen for a; the origin holds b and c, its lock resolves in no order
+		{Name: "member-excluded-by-conflict-entry-of-member", Archs: both(), World: []string{"a"}, Pkgs: []pspec{
+			{Name: "a", Version: "1.0-r0", Archs: both(), Deps: []string{"b", "c"}}, {Name: "b", Version: "1.0-r0", Archs: both()},
+			{Name: "c", Version: "1.0-r0", Archs: both(), Deps: []string{"!b"}}}},
 		{Name: "dependency-missing-on-one-arch", Archs: both(), World: []string{"a"}, Pkgs: []pspec{
 			{Name: "a", Version: "1.0-r0", Archs: both(), Deps: []string{"b"}}, {Name: "b", Version: "1.0-r0", Archs: []string{X}}}},
 	}
